@@ -1708,8 +1708,8 @@ class HTMLDependency(MetadataNode):
 
         return Tag(
             "script",
-            # "</script>" in a script tag must be escaped
-            json.dumps(res, indent=indent).replace("</script>", "<\\/script>"),
+            # "</script>" (in any letter case) in a script tag must be escaped
+            json.dumps(res, indent=indent).replace("</", "<\\/"),
             type="application/json",
             data_html_dependency=True,
         )
